@@ -11,6 +11,7 @@
     with the identity.  (The labels given to left-over scalar facts when they
     are merged back are never observed and are assigned in list order.) *)
 From Sheens Require Export Model.Bindings.
+From Coq Require Export Permutation.
 
 Inductive res (A : Type) : Type :=
 | Ok (a : A)
@@ -88,6 +89,9 @@ Definition inequal (f : json) (bs : bindings) (v : string) : ineq_res :=
 
 Definition order_oracle := forall A : Type, list A -> list A.
 Definition ord_id : order_oracle := fun _ l => l.
+(** what theorems assume of an oracle: it only reorders *)
+Definition perm_oracle (ord : order_oracle) : Prop :=
+  forall (A : Type) (l : list A), Permutation (ord A l) l.
 
 Section WithOrder.
 Variable ord : order_oracle.
